@@ -271,7 +271,7 @@ def gen_term(L, C):
     r = rng.random()
     if r < 0.55: tl, tc = L, C
     elif r < 0.85: tl, tc = L + rng.choice([0, 1, 2]), C + rng.choice([0, 1, 3])
-    elif r < 0.93: tl, tc = max(1, L - 1), max(1, C - rng.choice([0, 1, 2]))
+    elif r < 0.93: tl, tc = max(1, L - 1), max(1, C - rng.choice([0, 0, 0, 1, 2]))
     else: tl, tc = L + 3, C + 8
     oracle = rng.choice([0, 0, 0x7fffffff, 0x7fffffff, 0x55555555 & 0x7fffffff, 0x2aaaaaaa, rng.getrandbits(31)])
     ws = 1 if rng.random() < 0.3 else 0
@@ -377,6 +377,44 @@ def wide_history():
     return h.ops
 
 
+def edge_history():
+    """Buffer exactly as wide as the terminal, lines whose last column is filled by printed content (text, line cell,
+    char - or an erase, for contrast), and following lines whose first pending cell is at column 0 (an erase, a text
+    that starts with the blanked half of a double-width character, plain text, a line cell) or further right: whatever
+    the flush assumes about the cursor after the last column (pending wrap on a VT) shows here."""
+    L = rng.choice([2, 2, 3, 4]); C = rng.choice([2, 3, 4, 5, 6, 8, 12])
+    sizes[f"{L}x{C}"] += 1
+    feat["edge_history"] += 1
+    h = Hist(L, C)
+    oracle = rng.choice([0, 0x7fffffff, rng.getrandbits(31)])
+    pen = "NONE" if rng.random() < 0.4 else gen_pen(allow_null=False)
+    h.emit(f"term {L + rng.choice([0, 0, 1])} {C} {oracle} {1 if rng.random() < 0.3 else 0} {pen} {rng.randint(0, 9999)}")
+    for line in range(L):
+        if rng.random() < 0.25:
+            h.emit(f"setpen {gen_pen()}")
+        # what starts the line
+        r = rng.random()
+        if r < 0.35: h.emit(f"erase_at {line} 0 {rng.randint(1, C)}"); feat["edge_first_erase"] += 1
+        elif r < 0.50:
+            h.emit(f"text_at {line} -1 {hexs((rng.choice(WIDE) + rng.choice(ASCII)).encode())}"); feat["edge_first_half_wide"] += 1
+        elif r < 0.65: h.emit(f"text_at {line} 0 {hexs(rng.choice(ASCII).encode())}"); feat["edge_first_text"] += 1
+        elif r < 0.75: h.emit(f"char_at {line} 0 {rng.choice(CHAR_W1)}")
+        elif r < 0.85: h.emit(f"vline {line} {line} 0 {rng.randint(1, 3)} 3")
+        # what fills the last column
+        r = rng.random()
+        if r < 0.30:
+            k = rng.randint(1, min(C, 4))
+            h.emit(f"text_at {line} {C - k} {hexs(''.join(rng.choice(ASCII) for _ in range(k + rng.choice([0, 0, 2]))).encode())}")
+            feat["edge_last_text"] += 1
+        elif r < 0.45 and C >= 2:
+            h.emit(f"text_at {line} {C - 2} {hexs(rng.choice(WIDE).encode())}"); feat["edge_last_wide"] += 1
+        elif r < 0.60: h.emit(f"char_at {line} {C - 1} {rng.choice(CHAR_W1)}"); feat["edge_last_char"] += 1
+        elif r < 0.75: h.emit(f"hline {line} {rng.randint(0, C - 1)} {C - 1} {rng.randint(1, 3)} 3"); feat["edge_last_line"] += 1
+        elif r < 0.87: h.emit(f"erase_at {line} {rng.randint(0, C - 1)} {C}"); feat["edge_last_erase"] += 1
+    h.emit("flush")
+    return h.ops
+
+
 def exhaustive():
     """Every program of <= 3 drawing operations over a reduced alphabet on a 2x6 buffer, four terminal configurations."""
     alpha = [
@@ -421,7 +459,10 @@ else:
         lines.extend(random_history())
     for _ in range(W):
         lines.extend(wide_history())
-    info = {"histories": N + W, "wide_histories": W}
+    E = 250 if a.tier == "quick" else 1500
+    for _ in range(E):
+        lines.extend(edge_history())
+    info = {"histories": N + W + E, "wide_histories": W, "edge_histories": E}
 open(a.out, "w").write("\n".join(lines) + "\n")
 info.update({"ops": len(lines), "op_mix": dict(stats.most_common()), "text_kinds": dict(textkinds), "features": dict(feat),
              "buffer_sizes": dict(sizes.most_common(8))})
